@@ -97,6 +97,13 @@ func (svr *Server) handshakeDataChannel(wsc websocket.Conn) {
 	si, ok := svr.sessions.Load(channelID)
 	if ok {
 		session = si.(*Session)
+		// 通道号是顺序生成的，可以被猜到：数据通道必须与控制通道属于同一用户、同一路径，
+		// 否则别的用户可以把自己的连接接到他人的会话上并收到其媒体
+		if session.conn.Username() != wsc.Username() || session.conn.Path() != wsc.Path() {
+			session = nil
+			code = 403
+			text = "FORBIDDEN"
+		}
 	} else {
 		code = 404
 		text = "NOT FOUND"
